@@ -369,6 +369,13 @@ def selftest_determinism(props, nseeds=200, base_seed=0):
         if diff_ab or diff_ac or ea or eb or ec:
             bad += 1
     os.makedirs(os.path.join(core.VERIF_DIR, 'evidence'), exist_ok=True)
-    with open(os.path.join(core.VERIF_DIR, 'evidence', 'selftest-determinism.json'), 'w') as f:
-        json.dump(report, f, indent=1, sort_keys=True)
+    path = os.path.join(core.VERIF_DIR, 'evidence', 'selftest-determinism.json')
+    try:
+        with open(path) as f:
+            merged = json.load(f)
+    except Exception:
+        merged = {}
+    merged.update(report)       # a run over some profiles refreshes those and keeps the others
+    with open(path, 'w') as f:
+        json.dump(merged, f, indent=1, sort_keys=True)
     return 2 if bad else 0
